@@ -147,7 +147,14 @@ func (w *c15Walk) msg(d *dproto.MessageDescriptor, ref protoreflect.MessageDescr
 				w.viol("desc:list-elem-kind", "path", p, "got", t.Elem().Type().String(), "want", rf.Kind().String())
 			}
 			if t.IsPacked() != rf.IsPacked() {
-				w.viol("desc:packedness", "path", p, "elem", rf.Kind().String(), "got", t.IsPacked(), "want", rf.IsPacked())
+				sig := "desc:packedness"
+				if t.IsPacked() && !rf.IsPacked() && rf.Kind() != protoreflect.MessageKind && rf.Kind() != protoreflect.StringKind && rf.Kind() != protoreflect.BytesKind {
+					// defect model of known finding C15-K1: a packable kind declared [packed = false]
+					sig = "desc:packedness:declared-unpacked-reported-packed"
+				}
+				w.viol(sig, "path", p, "elem", rf.Kind().String(), "got", t.IsPacked(), "want", rf.IsPacked())
+			} else if rf.IsPacked() {
+				w.cs.Cover("packed_list_fields_compared")
 			}
 			if rf.Kind() == protoreflect.MessageKind {
 				w.msg(f.Message(), rf.Message(), p+"[]")
@@ -221,7 +228,7 @@ func (w *c15Walk) setForeign(ks []string) { w.foreign = ks }
 func runC15(c *h.Ctx) {
 	c.Run("schemas", c.N(4000, 150000), func(cs *h.Case) {
 		pkg := []string{"", "vp", "a.b.c"}[cs.R.Intn(3)]
-		cfg := gen.PCfg{MaxDepth: 1 + cs.R.Intn(3), MaxFields: 1 + cs.R.Intn(9), Nested: cs.R.Chance(70), SameNames: cs.R.Chance(70), BigNums: cs.R.Chance(50), Enums: true, Package: pkg, JSONNames: cs.R.Bool()}
+		cfg := gen.PCfg{Unpacked: true, MaxDepth: 1 + cs.R.Intn(3), MaxFields: 1 + cs.R.Intn(9), Nested: cs.R.Chance(70), SameNames: cs.R.Chance(70), BigNums: cs.R.Chance(50), Enums: true, Package: pkg, JSONNames: cs.R.Bool()}
 		sc := gen.GenPSchema(cs.R, cfg)
 		files := map[string]string{}
 		// an imported file with its own package whose messages share simple names with ours
